@@ -24,13 +24,8 @@ enum Item {
 }
 
 fn lens(tier: Tier) -> Vec<usize> {
-    if tier == Tier::Quick {
-        let mut v: Vec<usize> = (1..=9).map(|k| 8 * k).collect();
-        v.extend([256, 512]);
-        v
-    } else {
-        (1..=64).map(|k| 8 * k).collect()
-    }
+    let _ = tier;
+    (1..=64).map(|k| 8 * k).collect()
 }
 
 fn items(tier: Tier) -> Vec<Item> {
@@ -67,7 +62,7 @@ fn fail(acc: &mut Acc, sig: &str, detail: String, point: String) {
 
 fn impulses<T: Flt>(acc: &mut Acc, tier: Tier, len: usize, window: WindowFunction, journal: Option<&JournalFile>) -> Result<(), String> {
     let q = tier == Tier::Quick;
-    let overs: Vec<usize> = vec![1, 2, 3, 5, 128];
+    let overs: Vec<usize> = if q { vec![1, 2, 3, 5, 128, 256] } else { vec![1, 2, 3, 5, 7, 128, 256, 2048] };
     let starts: Vec<usize> = if q { vec![0, 1, 8] } else { (0..=8).collect() };
     let misaligns: Vec<usize> = if q { vec![0, 1, 3, 7] } else { (0..8).collect() };
     let f_cutoff = 0.93f32;
@@ -77,12 +72,17 @@ fn impulses<T: Flt>(acc: &mut Acc, tier: Tier, len: usize, window: WindowFunctio
         let sse = SseInterpolator::<T>::new(len, os, f_cutoff, window).map_err(|e| format!("SSE kernel unavailable: {}", e))?;
         let avx = AvxInterpolator::<T>::new(len, os, f_cutoff, window).map_err(|e| format!("AVX kernel unavailable: {}", e))?;
         let kernels: [(&str, &dyn SincInterpolator<T>); 3] = [("scalar", &scalar), ("sse", &sse), ("avx", &avx)];
-        let subs: Vec<usize> = if os <= 5 {
+        let subs: Vec<usize> = if os <= 7 {
             (0..os).collect()
-        } else if q {
-            vec![0, 1, 63, 127]
         } else {
-            vec![0, 1, 2, 31, 63, 64, 126, 127]
+            // representatives: both ends, powers of two and their neighbours
+            let mut v: Vec<usize> = vec![0, 1, 2, os / 4 - 1, os / 4, os / 2 - 1, os / 2, os / 2 + 1, os - 2, os - 1];
+            if !q {
+                v.extend([3, 7, 8, 15, 16, 31, 32, 63, 64, 127, 128, 255, 256, 1023, 1024].into_iter().filter(|x| *x < os));
+            }
+            v.sort();
+            v.dedup();
+            v
         };
         for &sub in &subs {
             // the table of this branch, read through the scalar kernel with impulses
@@ -274,7 +274,7 @@ impl Check for C15 {
         Ok((bad, log))
     }
     fn rule(&self, tier: Tier) -> String {
-        format!("full product of: T in {{f32,f64}} x sinc_len in {} x oversampling {{1,2,3,5,128}} x subindex (all for <=5; 4 or 8 representatives of 128) x start index x slice offset x unit impulse at every position index-8..index+len+8, on scalar/SSE/AVX: bit-identical and exactly 0 outside the window; plus six hard waveforms within (len/4+8) eps of the sum of |products|; all six windows at len 64; run-time dispatch vs explicit kernels on 4 resampler configurations. Non-trivial = impulse inside the window", if tier == Tier::Quick { "{8..72 step 8, 256, 512}" } else { "all 64 multiples of 8 up to 512" })
+        format!("full product of: T in {{f32,f64}} x sinc_len in {} x oversampling {{1,2,3,5,(7),128,256,(2048)}} x subindex (all for <=7; 10-25 representatives incl. both ends and powers of two for the large factors) x start index x slice offset x unit impulse at every position index-8..index+len+8, on scalar/SSE/AVX: bit-identical and exactly 0 outside the window; plus six hard waveforms within (len/4+8) eps of the sum of |products|; all six windows at len 64; run-time dispatch vs explicit kernels on 4 resampler configurations. Non-trivial = impulse inside the window", if tier == Tier::Quick { "all 64 multiples of 8 up to 512 (reduced start/offset sets)" } else { "all 64 multiples of 8 up to 512" })
     }
     fn assumptions(&self) -> Vec<String> {
         vec![
